@@ -240,9 +240,11 @@ func ruleArraySlices(c *Ctx, r *Report, prefix string) {
 		"(*lzma.encoderDict).Discard": "n is the length of the operation just coded (at most maxMatchLen = len(d.data), OB-LZMAW/M1 bound the matcher's results)",
 	}
 	n := 0
+	// C11 is about the readers: the functions reachable from the reader API (new helpers included)
+	cone := readerCone(c)
 	for _, pk := range []string{"", "lzma"} {
 		for _, fn := range c.modFuncs {
-			if pkgPathOf(fn) != full(pk) || fn.Blocks == nil {
+			if pkgPathOf(fn) != full(pk) || fn.Blocks == nil || !cone[fn] {
 				continue
 			}
 			for _, b := range fn.Blocks {
